@@ -17,7 +17,7 @@ EXH_M4 = 4
 EXH_M3 = 6
 N_EXH = EXH_M4 * 1296 + EXH_M3 * 8
 BUDGET = {
-    "quick": {"runs": 2400, "wall": 300, "chunk": 40},
+    "quick": {"runs": 6000, "wall": 300, "chunk": 40},
     "thorough": {"runs": N_EXH + 30000, "wall": 3000, "chunk": 150},
 }
 RULE = (
